@@ -32,9 +32,8 @@ def maxAbs {n : Nat} (A : DMat n n ℚ) : ℚ :=
 
 def fins (n : Nat) : List (Fin n) := List.finRange n
 
-/-- `CoxeterGroup.bilinear_form()` from the Coxeter matrix and supplied cosines -/
-def formOp (j : Json) : R Json := do
-  let n ← natf j "n"
+/-- the cosine form from the Coxeter matrix `M` and the supplied cosine table `cos` -/
+def formOf (n : Nat) (j : Json) : R (DMat n n ℚ) := do
   let M ← intMat n (← field j "M")
   let tab ← cosTable (← field j "cos")
   -- every key the model will ask for must be supplied
@@ -42,7 +41,18 @@ def formOp (j : Json) : R Json := do
     for k in fins n do
       let x : ℚ := if M i k ≤ 0 then 1 / 2 else (M i k : ℚ)
       if (tab x).isNone then throw "missing-cosine"
-  return ofMat (cosineForm (fun x => (tab x).getD 0) M)
+  return DMat.ofMatrix (cosineForm (fun x => (tab x).getD 0) M)
+
+/-- `CoxeterGroup.bilinear_form()` from the Coxeter matrix and supplied cosines -/
+def formOp (j : Json) : R Json := do
+  let n ← natf j "n"
+  return ofD (← formOf n j)
+
+/-- the form: either given (`B`) or built from `M` and `cos` -/
+def getB (n : Nat) (j : Json) : R (Matrix (Fin n) (Fin n) ℚ) := do
+  match j.getObjVal? "B" with
+  | .ok b => mat n n b
+  | .error _ => return (← formOf n j).toMatrix
 
 /-- generators of `cartan_representation(C)` / `geometric_representation()` /
 `canonical_representation()` / `geometric_representation(diagonalize=True)` -/
@@ -53,16 +63,23 @@ def gensOp (j : Json) : R Json := do
   | "cartan" =>
     let C ← matf n n j "C"
     return .arr ((fins n).map fun i => ofD (DMat.ofMatrix (refl C i))).toArray
+  | "vinberg" =>
+    -- `tits_vinberg_rep(parameters)`
+    let B ← getB n j
+    let M ← intMat n (← field j "M")
+    let P ← matf n n j "P"
+    let C := DMat.ofMatrix (cartanMatrix B M P)
+    return .arr ((fins n).map fun i => ofD (DMat.ofMatrix (refl C.toMatrix i))).toArray
   | "geom" =>
-    let B ← matf n n j "B"
+    let B ← getB n j
     return .arr ((fins n).map fun i => ofD (DMat.ofMatrix (geomRep B i))).toArray
   | "canon" =>
     -- `canonRep B i = (geomRep B i)ᵀ` by `GT.C08.canonRep_eq_transpose` (needs `B_ii = 1`)
-    let B ← matf n n j "B"
+    let B ← getB n j
     if (fins n).any (fun i => B i i ≠ 1) then throw "diag-not-one"
     return .arr ((fins n).map fun i => ofD (DMat.ofMatrix (geomRep B i).transpose)).toArray
   | "hyp" =>
-    let B ← matf n n j "B"
+    let B ← getB n j
     let W := DMat.ofMatrix (← matf n n j "W")
     let Wi := DMat.ofMatrix (← matf n n j "Winv")
     return .arr ((fins n).map fun i =>
@@ -97,13 +114,18 @@ def residOp (j : Json) : R Json := do
   for i in fins n do
     invol := max invol (maxAbs (subOne ((g i).mul (g i))))
     for k in fins n do
-      if i ≠ k ∧ M i k ≥ 2 then
+      if i < k ∧ M i k ≥ 2 then
         let m := (M i k).toNat
         let P := (g i).mul (g k)
-        braid := max braid (maxAbs (subOne (powD P m)))
-        for e in List.range (m - 1) do
-          let r := maxAbs (subOne (powD P (e + 1)))
-          order := some (match order with | none => r | some o => min o r)
+        -- acc runs through P^1, …, P^m  (= `powD P e`, computed incrementally)
+        let mut acc := P
+        for e in List.range m do
+          let r := maxAbs (subOne acc)
+          if e + 1 < m then
+            order := some (match order with | none => r | some o => min o r)
+            acc := acc.mul P
+          else
+            braid := max braid r
   let mut out : List (String × Json) := [("invol", ofQ invol), ("braid", ofQ braid),
     ("order", match order with | none => Json.null | some o => ofQ o)]
   match j.getObjVal? "F" with
@@ -118,7 +140,7 @@ def residOp (j : Json) : R Json := do
   | .ok w =>
     let W := DMat.ofMatrix (← mat n n w)
     let Wi := DMat.ofMatrix (← matf n n j "Winv")
-    let B ← matf n n j "B"
+    let B ← getB n j
     let J ← matf n n j "J"
     let WtBW := ((W.transpose.mul (DMat.ofMatrix B)).mul W)
     out := out ++ [("winv", ofQ (maxAbs (subOne (Wi.mul W)))),
